@@ -393,4 +393,66 @@ def miWrapperCall (rnd : Rat → Rat) (N T : Nat) (nb : Int) (sc : Option Rat) (
     | _, _ => none
   miCall N T nb zdiv sc' (mn.map rnd) (a.map fun row => row.map fun x => x.map rnd)
 
+/-! ### symbols for data with infinities (round 3)
+
+IEEE-754 values with the finite part exact: `nan`, `-inf`, `+inf`, finite rationals.  Subtraction
+and multiplication follow the standard (`inf - inf`, `0 · inf` are NaN). -/
+inductive XR | nan | ninf | pinf | fin (r : Rat)
+deriving Repr, DecidableEq
+
+def XR.sub : XR → XR → XR
+  | .nan, _ => .nan
+  | _, .nan => .nan
+  | .pinf, .pinf => .nan
+  | .ninf, .ninf => .nan
+  | .pinf, _ => .pinf
+  | .ninf, _ => .ninf
+  | .fin _, .pinf => .ninf
+  | .fin _, .ninf => .pinf
+  | .fin a, .fin b => .fin (a - b)
+
+/-- sign of a finite factor: -1, 0, 1 -/
+def sgn (r : Rat) : Int := if r < 0 then -1 else if r = 0 then 0 else 1
+
+def XR.mul : XR → XR → XR
+  | .nan, _ => .nan
+  | _, .nan => .nan
+  | .fin a, .fin b => .fin (a * b)
+  | .fin a, .pinf => if sgn a = 0 then .nan else if sgn a = 1 then .pinf else .ninf
+  | .fin a, .ninf => if sgn a = 0 then .nan else if sgn a = 1 then .ninf else .pinf
+  | .pinf, .fin b => if sgn b = 0 then .nan else if sgn b = 1 then .pinf else .ninf
+  | .ninf, .fin b => if sgn b = 0 then .nan else if sgn b = 1 then .ninf else .pinf
+  | .pinf, .pinf => .pinf
+  | .ninf, .ninf => .pinf
+  | .pinf, .ninf => .ninf
+  | .ninf, .pinf => .ninf
+
+/-- `rescaled = scaling * (x - range_min); if (rescaled < 1.0) sym = (int)(rescaled * n_bins);
+else sym = n_bins - 1;` — `none` when the conversion is undefined (`rescaled = -inf`; a finite
+value outside the target type is judged by `castDefined` as before) -/
+def symbolX (s m : XR) (nb : Int) (x : XR) : Option Int :=
+  match XR.mul s (XR.sub x m) with
+  | .fin r => some (if r < 1 then truncInt (r * (nb : Rat)) else nb - 1)
+  | .ninf => none
+  | _ => some (nb - 1)
+
+/-- not negative: `≥ 0`, `+inf` or NaN -/
+def XR.notNeg : XR → Bool
+  | .fin r => decide (0 ≤ r)
+  | .ninf => false
+  | _ => true
+
+/-- the extended order, `false` as soon as one side is NaN -/
+def XR.le : XR → XR → Bool
+  | .nan, _ => false
+  | _, .nan => false
+  | .ninf, _ => true
+  | _, .pinf => true
+  | .fin a, .fin b => decide (a ≤ b)
+  | _, _ => false
+
+def XR.isNan : XR → Bool
+  | .nan => true
+  | _ => false
+
 end Pyunicorn.Access
